@@ -47,7 +47,7 @@ def zero_tests(b, p):
 
 def accessor(t):
     """name of the chrono/Duration accessor a slot is fed from (through casts / arithmetic)"""
-    c = T.find(t, lambda x: T.is_call(x, r"(Datelike>::(year|month|day)|Timelike>::(hour|minute|second|nanosecond)|Duration::(as_secs|subsec_micros|subsec_nanos))$"))
+    c = T.find(t, lambda x: T.is_call(x, r"(Datelike>?::(year|month|day)|Timelike>?::(hour|minute|second|nanosecond)|Duration::(as_secs|subsec_micros|subsec_nanos))$"))
     return c[1].split("::")[-1] if c is not None else None
 
 
